@@ -636,11 +636,13 @@ def cpsr_write_by_instr(M, value, bytemask, is_excpt_return):
         cp(31, 27)
         if is_excpt_return:
             cp(26, 24)
+            M.it_restored = True           # ITSTATE now is the interrupted program's: the IT-block bookkeeping of the returning instruction does not apply to it
     if bytemask & 4:
         cp(19, 16)
     if bytemask & 2:
         if is_excpt_return:
             cp(15, 10)
+            M.it_restored = True
         cp(9, 9)
         if privileged and (M.is_secure() or (scr >> 5) & 1 or M.virt_ext()):
             cp(8, 8)
